@@ -188,6 +188,10 @@ def _spell(name, how):
 def _mk_pos(p, form):
     np = _lib()[0]
     p = [float(c) for c in p]
+    if all(c == int(c) and abs(c) < 1e6 for c in p) and any(c != 0 for c in p):
+        # whole numbers are handed over as integers (int tuple / list / int64 array): the docs type positions as ArrayLike
+        ints = [int(c) for c in p]
+        return tuple(ints) if form == "tuple" else list(ints) if form == "list" else np.array(ints)
     if form == "tuple":
         return tuple(p)
     if form == "list":
@@ -372,7 +376,10 @@ def translations():
     typical = vec3(sfl(10, 120))
     large = vec3(sfl(1e3, 1e5))
     mixed = vec3(_component())
-    return st.one_of(small, typical, large, large, mixed, mixed, zero)
+    # whole-number translations / points (e.g. parsed from JSON or typed as ints): passed to the library as Python ints or
+    # integer arrays by _mk_pos, the reference still computes with the same values
+    integral = st.lists(st.integers(-60, 60), min_size=3, max_size=3).map(lambda v: [float(c) for c in v])
+    return st.one_of(small, typical, large, large, mixed, mixed, zero, integral)
 
 
 def axes():
@@ -408,7 +415,8 @@ def tfs():
 
 
 def points():
-    return st.one_of(vec3(sfl(1e-3, 10)), vec3(sfl(10, 120)), vec3(sfl(1e3, 1e5)), vec3(_component()))
+    integral = st.lists(st.integers(-60, 60), min_size=3, max_size=3).map(lambda v: [float(c) for c in v])
+    return st.one_of(vec3(sfl(1e-3, 10)), vec3(sfl(10, 120)), vec3(sfl(1e3, 1e5)), vec3(_component()), integral)
 
 
 def frame_lists(lo, hi):
